@@ -61,6 +61,10 @@ def rule_a(prog, rep):
         # body must be `return not (self == other)` / `not self.__eq__(other)`
         ok = False
         body = [b for b in ne.node.body if not (isinstance(b, ast.Expr) and isinstance(b.value, ast.Constant))]
+        # `r = <expr>; return r` is `return <expr>`
+        if len(body) == 2 and isinstance(body[0], ast.Assign) and len(body[0].targets) == 1 and isinstance(body[0].targets[0], ast.Name) \
+                and isinstance(body[1], ast.Return) and isinstance(body[1].value, ast.Name) and body[1].value.id == body[0].targets[0].id:
+            body = [ast.Return(body[0].value)]
         if len(body) == 1 and isinstance(body[0], ast.Return) and isinstance(body[0].value, ast.UnaryOp) and isinstance(body[0].value.op, ast.Not):
             inner = body[0].value.operand
             if isinstance(inner, ast.Compare) and len(inner.ops) == 1 and isinstance(inner.ops[0], ast.Eq):
